@@ -2,7 +2,8 @@
    Outcome.  Property theorems only; proofs are in Proofs/IterProofs.v. *)
 From SQLair.Base Require Import Bytes.
 From SQLair.Model Require Import Iter.
-From SQLair.Proofs Require Import IterProofs.
+From SQLair.Model Require Import GenConsts Reflect TypeInfo Bind Scan.
+From SQLair.Proofs Require Import IterProofs GetAllValues.
 
 (* GetAll leaves the caller's slices unchanged whenever it returns an error:
    for every result script, fault, query error and argument list. *)
@@ -46,3 +47,32 @@ Theorem C15_exec_outcome :
     gr_err res = None /\ gr_outcome res = Some (Some id).
 Proof. exact get_exec_outcome. Qed.
 Print Assumptions C15_exec_outcome.
+
+(* Value level (Model/Scan.v): GetAll scans every row into fresh elements, one
+   per destination slice (a new struct, a new struct behind a pointer, a new
+   map), and appends exactly one element per row, in row order; the element of
+   row i is what that row alone gives (C06 says where each value lands). *)
+Theorem C15_getall_values :
+  forall env outputs cols elems rows news,
+    getall_rows env outputs cols elems rows [] = SOk news ->
+    length news = length rows /\ Forall2 (row_elements env outputs cols elems) rows news.
+Proof. exact getall_values. Qed.
+Print Assumptions C15_getall_values.
+
+Theorem C15_getall_rows_independent :
+  forall env outputs cols elems rows news i cells vals,
+    getall_rows env outputs cols elems rows [] = SOk news ->
+    nth_error rows i = Some cells -> nth_error news i = Some vals ->
+    row_elements env outputs cols elems cells vals.
+Proof. exact getall_rows_independent. Qed.
+Print Assumptions C15_getall_rows_independent.
+
+(* a row that cannot be stored (missing column, conversion failure, nil embedded
+   pointer in the fresh element) makes the whole call fail: nothing is appended *)
+Theorem C15_getall_row_error :
+  forall env outputs cols elems pre cells post acc e d,
+    Forall (fun c => exists m, scan_row env outputs cols c (map (fresh_arg env) elems) = (Some m, None)) pre ->
+    scan_row env outputs cols cells (map (fresh_arg env) elems) = (d, Some e) ->
+    getall_rows env outputs cols elems (pre ++ cells :: post) acc = SErr e.
+Proof. exact getall_row_error. Qed.
+Print Assumptions C15_getall_row_error.
